@@ -22,11 +22,11 @@ type Profile struct {
 
 var (
 	ScalarsTiny   = []any{1.0, 2.0, 3.0, "a"}
-	ScalarsSmall  = []any{0.0, 1.0, 2.0, 3.0, "a", "b", "", true, false}
-	ScalarsNulls  = []any{0.0, 1.0, 2.0, "a", "b", "", true, false, nil}
+	ScalarsSmall  = []any{0.0, 1.0, 2.0, 3.0, "a", "b", "", true, false, "true"}
+	ScalarsNulls  = []any{0.0, 1.0, 2.0, "a", "b", "", true, false, "null", "false", nil}
 	ScalarsNum    = []any{0.0, 1.0, 2.0, 3.0, 1.5, -1.0}
 	KeysSmall     = []string{"a", "b", "c", "d"}
-	KeysHostile   = []string{"a", "b", "", "a/b", "m~n", "~0", "~1", "~01", "é", " ", "x y", "1a", "-x", "a\"b", "\\", "<&>", "a/b/c", "~~", "x/y~z/~0~1", "//", "a b", "b a", "a 1"}
+	KeysHostile   = []string{"a", "b", "", "a/b", "m~n", "~0", "~1", "~01", "é", " ", "x y", "1a", "-x", "a\"b", "\\", "<&>", "a/b/c", "~~", "x/y~z/~0~1", "//", "a b", "b a", "a 1", "k\u0001", "\u007f", "bell\a"}
 	KeysNumberish = []string{"0", "1", "-1", "01", "-", "+1", "1e3", "12"}
 )
 
@@ -139,6 +139,23 @@ func mutate(r *RNG, p Profile, v any, rate float64, depth int) any {
 			if len(t) > 0 {
 				k := Pick(r, ref.SortedKeys(t))
 				t[k] = Scalar(r, p)
+			}
+		case x < 0.63:
+			// move values between keys: the object keeps its keys and its multiset of values
+			if ks := ref.SortedKeys(t); len(ks) >= 2 {
+				i, j := r.Intn(len(ks)), r.Intn(len(ks))
+				t[ks[i]], t[ks[j]] = t[ks[j]], t[ks[i]]
+			}
+		case x < 0.66:
+			// a key trades places with its string value
+			for _, k := range ref.SortedKeys(t) {
+				if s, ok := t[k].(string); ok && s != k {
+					if _, clash := t[s]; !clash {
+						delete(t, k)
+						t[s] = k
+						break
+					}
+				}
 			}
 		}
 		return t
